@@ -533,6 +533,12 @@ Error BaseBuilder::bind(const Label& label) {
   LabelNode* node;
   ASMJIT_PROPAGATE(label_node_of(Out(node), label));
 
+  // A label node that is already part of the node list cannot be linked again - binding it twice is the same
+  // error BaseAssembler::bind() reports (linking an active node would silently drop the nodes that follow it).
+  if (ASMJIT_UNLIKELY(node->is_active())) {
+    return report_error(make_error(Error::kLabelAlreadyBound));
+  }
+
   add_node(node);
   return Error::kOk;
 }
